@@ -665,7 +665,7 @@ def check_mutated(ctx, case):
         return
     if exps is None or not isinstance(val, (int, float)):
         ctx.fail('mutated:result-type', '%r -> %r' % (t, r))
-    elif not math.isfinite(val):
+    elif isinstance(val, float) and not math.isfinite(val):        # (a whole number of any size is finite)
         ctx.event('mutated:out-of-domain-nonfinite')
 
 
